@@ -1025,3 +1025,79 @@ Proof.
   { induction ops0; simpl; intros; auto. apply IHops0. apply R_exec_op. auto. }
   apply G. reflexivity.
 Qed.
+
+(* ================= soundness of the oracle's safety clauses ================= *)
+Lemma x_invariants : forall xls t n,
+  let s := xrun xls (init t n) in
+  Inv1 s /\ InvE s.
+Proof.
+  intros. subst s. destruct (xrun_core xls t n) as (ls & E). rewrite E.
+  pose proof (Inv1_run ls t n) as I1. pose proof (InvE_run ls t n) as IE.
+  unfold Inv1, InvE, set_groups in *. simpl. auto.
+Qed.
+
+Lemma member_no_fwd : forall xls t n c cl,
+  let s := xrun xls (init t n) in
+  nth_error (calls s) c = Some cl -> member_of_group s c = true -> c_fwd cl = None.
+Proof.
+  intros xls t n c cl s N M. subst s. unfold member_of_group in M.
+  apply existsb_exists in M. destruct M as (gr & IN & MM).
+  apply In_nth_error in IN. destruct IN as (g & NG).
+  unfold mem in MM. apply existsb_exists in MM. destruct MM as (c' & IC & E).
+  apply Nat.eqb_eq in E. subst c'. apply In_nth_error in IC. destruct IC as (i & NI).
+  destruct (multi_order xls t n g gr NG) as (A & _).
+  destruct (A _ _ NI) as (a & _ & (cl' & N' & _ & _ & F)). congruence.
+Qed.
+
+Lemma check_calls_safe_map : forall fw (f : nat * call -> ocall) l c0,
+  (forall i cl, nth_error l i = Some cl -> check_call_safe fw (c0 + i) (f ((c0 + i)%nat, cl)) = true) ->
+  check_calls_safe fw c0 (map f (combine (seq c0 (length l)) l)) = true.
+Proof.
+  induction l; simpl; intros; auto.
+  pose proof (H 0%nat a eq_refl) as H0. rewrite Nat.add_0_r in H0. rewrite H0. simpl.
+  apply IHl. intros i cl N. specialize (H (S i) cl N). rewrite Nat.add_succ_r in H. auto.
+Qed.
+
+(* the safety clauses of the executable oracle accept every run of the model's driver, for
+   every number of actors and every scenario *)
+Theorem oracle_sound_safety : forall n ops, check_C09_safety (observe n ops) = true.
+Proof.
+  intros n ops. unfold check_C09_safety, observe.
+  set (d := exec n (ops ++ [OSettle])). pose proof (exec_is_run n (ops ++ [OSettle])) as ER. fold d in ER.
+  set (s := d_s d) in *. cbn [o_fwds o_calls].
+  destruct (x_invariants (rev (d_ls d)) 0 n) as ((_ & OK) & (IE & _)). rewrite <- ER in OK, IE.
+  apply check_calls_safe_map. intros i cl N. simpl (0 + i)%nat.
+  pose proof (OK _ _ N) as (O1 & _ & _ & _ & _ & _ & _ & _ & O9). pose proof (IE _ _ N) as FW.
+  unfold fwd_ok, fw_of in FW. unfold check_call_safe. cbn [oc_res oc_done oc_t0 oc_tmo oc_fwd].
+  destruct (member_of_group s i) eqn:M.
+  - (* a request of a multi_call: reported through the vector; it never forwards *)
+    assert (F : c_fwd cl = None).
+    { subst s. rewrite ER in N, M. eapply member_no_fwd; eauto. }
+    rewrite F in *. simpl. destruct (c_st cl) as [| |[] ?]; rewrite FW; auto.
+  - destruct (c_st cl) as [|dl|r tt] eqn:ST; simpl.
+    + destruct (c_fwd cl); rewrite FW; auto.
+    + destruct (c_fwd cl); rewrite FW; auto.
+    + destruct r; simpl.
+      * destruct (c_fwd cl).
+        -- destruct FW as (ok & ->). rewrite !N.eqb_refl. auto.
+        -- rewrite FW. auto.
+      * destruct (c_fwd cl); rewrite FW; auto.
+      * destruct (O9 _ eq_refl) as (T & -> & LE). apply N.leb_le in LE. rewrite LE.
+        destruct (c_fwd cl); rewrite FW; auto.
+      * destruct (c_fwd cl); rewrite FW; auto.
+      * destruct (c_fwd cl); rewrite FW; auto.
+Qed.
+
+Lemma check_calls_imp : forall ops pts alive fw members l c,
+  check_calls ops pts alive fw members c l = true -> check_calls_safe fw c l = true.
+Proof.
+  induction l; simpl; intros; auto. apply andb_prop in H. destruct H as (H1 & H2).
+  unfold check_call in H1. apply andb_prop in H1. destruct H1 as (H1 & _). rewrite H1. simpl. eauto.
+Qed.
+
+(* ... and they are part of the oracle that judges the implementation *)
+Theorem oracle_includes_safety : forall n ops o, check_C09 n ops o = true -> check_C09_safety o = true.
+Proof.
+  unfold check_C09, check_C09_safety. intros. apply andb_prop in H. destruct H as (H & _).
+  eapply check_calls_imp; eauto.
+Qed.
